@@ -1,6 +1,7 @@
 package stake
 
 import (
+	"encoding/json"
 	"fmt"
 	"github.com/holiman/uint256"
 	cfg "github.com/rigochain/rigo-go/cmd/config"
@@ -80,6 +81,17 @@ func NewStakeCtrler(config *cfg.Config, govHandler ctrlertypes.IGovHandler, logg
 
 	// set `lastValidators` of StakeCtrler
 	_ = ret.UpdateValidators(int(govHandler.MaxValidatorCnt()))
+
+	// restore the validator set reported to the consensus engine so far:
+	// it is not derivable from the ledgers alone (it reflects the previous block's parameters and state),
+	// and without it the first block after a restart would re-announce every validator and drop removals.
+	if bz := rwdHashDB.LastValidators(); bz != nil {
+		var lastVals DelegateeArray
+		if err := json.Unmarshal(bz, &lastVals); err != nil {
+			return nil, xerrors.From(err)
+		}
+		ret.lastValidators = lastVals
+	}
 
 	return ret, nil
 }
@@ -808,6 +820,13 @@ func (ctrler *StakeCtrler) Commit() ([]byte, int64, xerrors.XError) {
 	if v0%ctrler.rwdLedgUpInterval == 0 {
 		_ = ctrler.rwdHashDB.PutLastRewardHash(h2)
 		ctrler.lastRwdHash = h2
+	}
+
+	// persist the validator set reported to the consensus engine (see NewStakeCtrler)
+	if bz, err := json.Marshal(ctrler.lastValidators); err != nil {
+		return nil, -1, xerrors.From(err)
+	} else if err := ctrler.rwdHashDB.PutLastValidators(bz); err != nil {
+		return nil, -1, xerrors.From(err)
 	}
 
 	return crypto.DefaultHash(h0, h1, ctrler.lastRwdHash), v0, nil
